@@ -277,7 +277,7 @@ def exScope : Scope :=
 
 def exFn (name : String) (np nd : Nat) (sfx : Option String) : Fn :=
   { name := name.toList, nparams := np, ndefaults := nd, suffix := sfx.map String.toList, dsuffix := [],
-    tinst := [], generics := [], hasBuf := false, isCtor := false, usesT := false }
+    tinst := [], generics := [], hasBuf := false, isCtor := false, usesT := false, cppIf := none }
 
 /-- two overloads of `fooBar` (one with two defaulted arguments, one with an explicit suffix), a
     function template with two instantiations and a single function -/
@@ -924,6 +924,73 @@ theorem class_template_overloads_clash :
                        { exFn "push" 2 0 none with usesT := true }]).filter
           (fun r => r.wrap.c)).map (cName exScope)).Nodup := by
   decide +kernel
+
+/-! ### members under preprocessor conditions -/
+
+/-- **(c) type-bound generics with `cpp_if`.**  The `generic ::` lines of a type-bound generic
+    list every member exactly once, and exactly under its own condition. -/
+theorem type_bound_generic_own_condition (ms : List (Str × Option Str)) :
+    (typeGenericLines ms).flatMap (fun l => l.2.map (fun b => (b, l.1))) = ms := by
+  unfold typeGenericLines
+  split
+  · have : ∀ l : List (Str × Option Str),
+        (l.map (fun m => (m.2, [m.1]))).flatMap (fun l => l.2.map (fun b => (b, l.1))) = l := by
+      intro l
+      induction l with
+      | nil => rfl
+      | cons m l ih => simp [List.flatMap_cons, ih]
+    exact this ms
+  · rename_i h
+    simp only [List.any_eq_true, not_exists, not_and, Bool.not_eq_true, Option.isSome_eq_false_iff,
+      Option.isNone_iff_eq_none] at h
+    simp only [List.flatMap_cons, List.flatMap_nil, List.append_nil, List.map_map]
+    induction ms with
+    | nil => rfl
+    | cons m ms ih =>
+      simp only [List.map_cons, Function.comp]
+      rw [ih (fun x hx => h x (by simp [hx]))]
+      congr 1
+      have := h m (by simp)
+      cases m; simp_all
+
+/-- **(c) generic interfaces with `cpp_if`.**  Every `module procedure` line is in force
+    exactly under its member's own condition (promoted to the interface when common to all). -/
+theorem generic_member_own_condition (ms : List (Str × Option Str)) :
+    (interfaceLines ms).2.map (fun l => (l.2, effective (interfaceLines ms).1 l.1)) = ms := by
+  unfold interfaceLines
+  cases ms with
+  | nil => rfl
+  | cons m0 ms =>
+    simp only
+    split
+    · rename_i h
+      simp only [Bool.and_eq_true, List.all_eq_true, beq_iff_eq] at h
+      obtain ⟨h0, hall⟩ := h
+      obtain ⟨c, hc⟩ := Option.isSome_iff_exists.1 h0
+      simp only [List.map_map]
+      have : ∀ l : List (Str × Option Str), (∀ x ∈ l, x.2 = m0.2) →
+          l.map ((fun l => (l.2, effective m0.2 l.1)) ∘ fun m => ((none : Option Str), m.1)) = l := by
+        intro l hl
+        induction l with
+        | nil => rfl
+        | cons x l ih =>
+          simp only [List.map_cons, Function.comp]
+          rw [ih (fun y hy => hl y (by simp [hy]))]
+          congr 1
+          have := hl x (by simp)
+          cases x; simp_all [effective]
+      exact this _ hall
+    · simp only [List.map_map]
+      have : ∀ l : List (Str × Option Str),
+          l.map ((fun l => (l.2, effective none l.1)) ∘ fun m => (m.2, m.1)) = l := by
+        intro l
+        induction l with
+        | nil => rfl
+        | cons x l ih =>
+          have e : ((fun l : Option Str × Str => (l.2, effective none l.1)) ∘ fun m : Str × Option Str => (m.2, m.1))
+              = fun m => m := by funext m; simp [effective]
+          rw [e]; simp
+      exact this _
 
 /-! ### Python and Lua method tables -/
 
